@@ -11,6 +11,7 @@ PAIRS = [
     (("contracts/common_api_assumed.inc", "HeaderField", "as_str"), ("contracts/u_parse.rs.tpl", "HeaderField", "as_str")),
     (("contracts/u_newreq.rs.tpl", "EqualReader<R>", "new"), ("contracts/u_readers.rs.tpl", "EqualReader<R>", "new")),
     (("contracts/u_newreq.rs.tpl", "FusedReader<R>", "new"), ("contracts/u_readers.rs.tpl", "FusedReader<R>", "new")),
+    (("contracts/u_resp.rs.tpl", None, "choose_transfer_encoding"), ("contracts/u_cte.rs.tpl", None, "choose_transfer_encoding")),
     (("contracts/u_conn.rs.tpl", "Iterator for SequentialWriterBuilder<W>", "next"), ("contracts/u_seq.rs.tpl", "Iterator for SequentialWriterBuilder<W>", "next")),
 ]
 
@@ -24,7 +25,9 @@ def clauses(path, impl_sel, fn):
         m = re.match(r'//@impl\s+\S+\s+"([^"]+)"', s)
         if m:
             cur_impl = m.group(1)
-        if s.startswith("//@fn ") and cur_impl == impl_sel and s.split()[1] == fn:
+        if s.startswith("//@endimpl"):
+            cur_impl = None
+        if s.startswith("//@fn ") and cur_impl == impl_sel and (s.split()[1] == fn or (impl_sel is None and len(s.split()) > 2 and s.split()[2] == fn)):
             j = i + 1
             spec = []
             in_spec = False
